@@ -115,6 +115,10 @@ class TimePointDumper(object):
                 properties += item_properties
             else:
                 expression += item
+        if not timepoint.truncated and timepoint.get_is_week_date():
+            # All strftime directives refer to the calendar year, not the
+            # ISO week-numbering year (which only %G would).
+            timepoint = timepoint.to_calendar_date()
         return self._dump_expression_with_properties(
             timepoint, expression, properties)
 
